@@ -204,7 +204,7 @@ struct QueTarget
         run.setup_bernoulli(bern_permille, bern_seed);
         keyspace = (uint32_t)std::max<int64_t>(1, p.knob("keyspace", 16));
         maxlen = (size_t)std::max<int64_t>(1, p.knob("maxlen", 40));
-        size_t const z0 = ELEM_SIZES[(size_t)p.knob("zsel", 4) % 10];
+        size_t const z0 = ELEM_SIZES[(size_t)p.knob("zsel", 4) % N_ELEM_SIZES];
         bool const heap0 = p.knob("heap", 1) != 0;
         if (!create(box[0], heap0, z0) || !create(box[1], !heap0, z0)) return;
         for (size_t i = 0; i < p.ops.size() && c.ok(); ++i)
@@ -382,7 +382,7 @@ struct QueTarget
         }
         case Q_SETZ:
         {
-            size_t const zreq = ELEM_SIZES[(size_t)(((o.a[0] % 10) + 10) % 10)];
+            size_t const zreq = ELEM_SIZES[(size_t)(((o.a[0] % 37) + 37) % 37 % N_ELEM_SIZES)];
             bool const with_dtor = (o.a[1] & 1) != 0;
             g_dtor_seen.clear(); g_dtor_outside = false;
             int ret = 0;
@@ -425,7 +425,7 @@ struct QueTarget
         case Q_RECREATE:
         {
             if (!destroy(x, (o.a[2] & 1) != 0)) break;
-            size_t zreq = ELEM_SIZES[(size_t)(((o.a[1] % 10) + 10) % 10)];
+            size_t zreq = ELEM_SIZES[(size_t)(((o.a[1] % 37) + 37) % 37 % N_ELEM_SIZES)];
             create(x, (o.a[0] & 1) != 0, zreq);
             if (c.ok()) check(x, "a_que_new");
             break;
@@ -444,9 +444,9 @@ static inline void gen_que_plan(Rng &r, Plan &p, bool for_faults, int tier)
     p.set("alloc_default", r.chance(1, 6));
     static const int64_t KS[] = {1, 2, 4, 16, 64, 1000};
     p.set("keyspace", r.pick(KS));
-    static const int64_t ML[] = {3, 6, 12, 40, 90};
+    static const int64_t ML[] = {3, 6, 12, 40, 90, 12, 40, 400};
     p.set("maxlen", r.pick(ML));
-    p.set("zsel", (int64_t)r.below(10));
+    p.set("zsel", gen_zsel(r));
     p.set("heap", r.chance(1, 2));
     p.set("dtor_at_end", r.chance(1, 2));
     bool const sorted_mode = r.chance(1, 3);
